@@ -73,6 +73,24 @@ impl PartialOrd for DateTimeInfo<'_> {
     }
 }
 
+fn normalize_day(dt: &mut DateTimeInfo) {
+    if dt.day < 1 {
+        dt.month -= 1;
+        if dt.month < 1 {
+            dt.month = 12;
+            dt.year -= 1;
+        }
+        dt.day = DAYS_PER_MONTHS[usize::from(helpers::is_leap(dt.year))][dt.month as usize];
+    } else if dt.day > DAYS_PER_MONTHS[usize::from(helpers::is_leap(dt.year))][dt.month as usize] {
+        dt.day = 1;
+        dt.month += 1;
+        if dt.month > 12 {
+            dt.month = 1;
+            dt.year += 1;
+        }
+    }
+}
+
 pub fn get_tz_name<'py>(dt: &Bound<'py, PyAny>) -> PyResult<String> {
     // let tz: &str = "";
 
@@ -207,7 +225,7 @@ pub fn precise_diff<'py>(
             if dtinfo1.second < 0 {
                 dtinfo1.second += 60;
                 dtinfo1.minute -= 1;
-            } else if dtinfo1.second > 60 {
+            } else if dtinfo1.second >= 60 {
                 dtinfo1.second -= 60;
                 dtinfo1.minute += 1;
             }
@@ -215,7 +233,7 @@ pub fn precise_diff<'py>(
             if dtinfo1.minute < 0 {
                 dtinfo1.minute += 60;
                 dtinfo1.hour -= 1;
-            } else if dtinfo1.minute > 60 {
+            } else if dtinfo1.minute >= 60 {
                 dtinfo1.minute -= 60;
                 dtinfo1.hour += 1;
             }
@@ -223,10 +241,12 @@ pub fn precise_diff<'py>(
             if dtinfo1.hour < 0 {
                 dtinfo1.hour += 24;
                 dtinfo1.day -= 1;
-            } else if dtinfo1.hour > 24 {
+            } else if dtinfo1.hour >= 24 {
                 dtinfo1.hour -= 24;
                 dtinfo1.day += 1;
             }
+
+            normalize_day(&mut dtinfo1);
         }
 
         dtinfo1.total_seconds = dtinfo1.hour * SECS_PER_HOUR as i32
@@ -252,7 +272,7 @@ pub fn precise_diff<'py>(
             if dtinfo2.second < 0 {
                 dtinfo2.second += 60;
                 dtinfo2.minute -= 1;
-            } else if dtinfo2.second > 60 {
+            } else if dtinfo2.second >= 60 {
                 dtinfo2.second -= 60;
                 dtinfo2.minute += 1;
             }
@@ -260,7 +280,7 @@ pub fn precise_diff<'py>(
             if dtinfo2.minute < 0 {
                 dtinfo2.minute += 60;
                 dtinfo2.hour -= 1;
-            } else if dtinfo2.minute > 60 {
+            } else if dtinfo2.minute >= 60 {
                 dtinfo2.minute -= 60;
                 dtinfo2.hour += 1;
             }
@@ -268,10 +288,12 @@ pub fn precise_diff<'py>(
             if dtinfo2.hour < 0 {
                 dtinfo2.hour += 24;
                 dtinfo2.day -= 1;
-            } else if dtinfo2.hour > 24 {
+            } else if dtinfo2.hour >= 24 {
                 dtinfo2.hour -= 24;
                 dtinfo2.day += 1;
             }
+
+            normalize_day(&mut dtinfo2);
         }
 
         dtinfo2.total_seconds = dtinfo2.hour * SECS_PER_HOUR as i32
